@@ -31,6 +31,9 @@ const (
 	sigF2        = "F2-get-item-value-lost-after-gc-deletes-vlog-file"
 	sigF8        = "F8-same-key-version-precedence-flips-after-l0-sort"
 	sigF23       = "F23-gc-writeback-resurrects-key-deleted-before-rewrite"
+	sigF26       = "F26-gc-writeback-above-newer-tombstone-resurrects-after-rewrite-ends"
+	sigDangling  = "c15-read-returns-dangling-pointer"
+	sigRef       = "c15-read-differs-from-committed-history"
 	sigChanged   = "c15-read-changed-by-gc"
 	sigResurrect = "c15-deleted-key-resurrected"
 	sigIterItem  = "c15-iterator-item-unreadable"
@@ -71,6 +74,7 @@ type gcHist struct {
 	clamp   uint64 // gcDiscardTs of the rewrite in flight
 	inGC    bool
 	compactInGC bool
+	wroteBack   map[string]uint64 // key@version written back by a rewrite -> that rewrite's gcDiscardTs
 }
 
 func openGcDB(dir string, o sysOpts, maxEnt int) (*badger.DB, error) {
@@ -100,7 +104,7 @@ func newGcHist(c *Ctx, o sysOpts, maxEnt int) (*gcHist, error) {
 	}
 	h := &hist{c: c, o: o, dir: dir, db: db, txns: map[int]*badger.Txn{}, tupd: map[int]bool{}, tpend: map[int][]refWrite{}}
 	h.next0 = db.VerifNextTs()
-	g := &gcHist{hist: h, maxEnt: maxEnt, items: map[int]*heldItem{}, iters: map[int]*heldIter{}, offIdx: map[uint32]map[uint32]int{}, mts: 1}
+	g := &gcHist{hist: h, maxEnt: maxEnt, items: map[int]*heldItem{}, iters: map[int]*heldIter{}, offIdx: map[uint32]map[uint32]int{}, mts: 1, wroteBack: map[string]uint64{}}
 	badger.VerifSetController(&badger.VerifController{
 		Point: func(name string, args ...uint64) {
 			if name == "subcompact.discardTs" {
@@ -132,7 +136,7 @@ func (g *gcHist) closeAll() {
 	g.hist.close()
 }
 
-var gcOwnLabels = []string{"(GetHold ", "(ItemValue ", "(ItOpen ", "(ItRun ", "(ItClose ", "(GcStart ", "(GcScan ", "GcWriteBack", "(GcDelete ", "GcEnd", "(PDump "}
+var gcOwnLabels = []string{"(CommitV ", "(GetHold ", "(ItemValue ", "(ItOpen ", "(ItRun ", "(ItClose ", "(GcStart ", "(GcScan ", "GcWriteBack", "(GcDelete ", "GcEnd", "(PDump "}
 
 func (g *gcHist) term() string {
 	ops := make([]string, len(g.ops))
@@ -318,8 +322,22 @@ func (g *gcHist) itRun(i int) {
 	ok := !bad
 	for _, x := range items {
 		w := refLatestExact(g.allWritesFor(hi.t), x.Key, x.Ver)
+		if w != nil && expired(w.Meta, w.Exp, uint64(time.Now().Unix())) && w.UMeta == x.UMeta {
+			// AllVersions also shows deleted / expired versions; GC does not move their values
+			// (rewrite skips expired records), so the value of a dead version is not data
+			continue
+		}
+		if w != nil && g.superseded(x.Key, x.Ver) {
+			// a version that no legal snapshot read (ts >= discardTs) can return: retention does
+			// not promise it, and when the compaction filter drops its re-written copy a stale
+			// copy underneath (pointer into a deleted file) may resurface in AllVersions mode
+			continue
+		}
 		if w == nil || !bytes.Equal(w.Val, x.Val) || w.UMeta != x.UMeta {
 			ok = false
+			if os.Getenv("GCDEBUG") != "" {
+				fmt.Fprintf(os.Stderr, "itRun mismatch: key=%x ver=%d val=%x w=%+v\n", x.Key, x.Ver, x.Val, w)
+			}
 		}
 	}
 	if ok && !hi.o.All {
@@ -331,11 +349,28 @@ func (g *gcHist) itRun(i int) {
 			}
 		}
 		ok = n == len(items)
+		if !ok && os.Getenv("GCDEBUG") != "" {
+			fmt.Fprintf(os.Stderr, "itRun count mismatch: visible=%d items=%d rts=%d\n", n, len(items), g.txns[hi.t].VerifReadTs())
+			for _, x := range items {
+				fmt.Fprintf(os.Stderr, "   item %x@%d\n", x.Key, x.Ver)
+			}
+		}
 	}
 	if !ok {
 		g.stop = true
 	}
 	g.c.Oracle(ok, sigIterItem, "an item of an iterator that was open across a GC is not readable / not the written value", J{"history": g.desc})
+}
+
+// superseded: another committed version of k lies in (ver, discardTs]
+func (g *gcHist) superseded(k []byte, ver uint64) bool {
+	d := g.db.VerifDiscardTs()
+	for _, w := range g.ref {
+		if bytes.Equal(w.Key, k) && w.Ver > ver && w.Ver <= d {
+			return true
+		}
+	}
+	return false
 }
 
 func (g *gcHist) itClose(i int) {
@@ -451,13 +486,11 @@ func (g *gcHist) checkSnap(before, after readSnap, phase string) {
 			var kx string
 			fmt.Sscanf(k, "%d|get|%s", &ts, &kx)
 			sig = sigResurrect
+			var gv uint64
+			fmt.Sscanf(a, "v%d", &gv)
 			for _, key := range g.keyUniverse(-1) {
 				if fmt.Sprintf("%x", key) == kx {
-					if w := refLatest(g.ref, key, ts); w != nil && w.Meta&mDelete != 0 && w.Ver <= g.clamp && g.compactInGC {
-						// the tombstone was committed before the rewrite started (at or below
-						// gcDiscardTs), so the #2286 clamp does not protect it
-						sig = sigF23
-					}
+					sig = g.classify(key, ts, true, gv, false, 0)
 				}
 			}
 			break
@@ -467,6 +500,72 @@ func (g *gcHist) checkSnap(before, after readSnap, phase string) {
 		g.stop = true
 	}
 	g.c.Oracle(ok, sig, "a read returned something else immediately after the GC phase `"+phase+"` than immediately before it", J{"history": g.desc, "first": first, "phase": phase})
+}
+
+// classify a read that differs from the committed history by root cause
+func (g *gcHist) classify(k []byte, ts uint64, found bool, gotVer uint64, inV bool, fid uint32) string {
+	now := uint64(time.Now().Unix())
+	want := refLatest(g.ref, k, ts)
+	if found && want != nil && gotVer < want.Ver && expired(want.Meta, want.Exp, now) {
+		// a deleted key is visible again through an older version
+		if cl, ok := g.wroteBack[fmt.Sprintf("%x@%d", k, gotVer)]; ok {
+			if want.Ver <= cl {
+				// the tombstone was committed before the rewrite started (at or below
+				// gcDiscardTs): the #2286 clamp never protected it
+				return sigF23
+			}
+			// the tombstone is newer than the rewrite's start: protected only while gcActive
+			return sigF26
+		}
+		return sigResurrect
+	}
+	if found && inV && !contains32(g.db.VerifGcState().Fids, fid) {
+		return sigDangling
+	}
+	return sigRef
+}
+
+// refCheck: every key, at every timestamp at or above the discard timestamp, reads what the
+// committed history says (run after compactions / flushes, where a GC write-back that sits
+// above a newer tombstone takes effect)
+func (g *gcHist) refCheck(where string) {
+	if g.stop {
+		return
+	}
+	now := uint64(time.Now().Unix())
+	for _, ts := range g.snapTimestamps() {
+		tx := g.db.VerifGcReadTxnAt(ts)
+		for _, k := range g.keyUniverse(-1) {
+			it, err := tx.Get(k)
+			w := refLatest(g.ref, k, ts)
+			if w != nil && expired(w.Meta, w.Exp, now) {
+				w = nil
+			}
+			ok := true
+			sig := sigRef
+			switch {
+			case err == nil:
+				v, _ := it.ValueCopy(nil)
+				ok = w != nil && w.Ver == it.Version() && bytes.Equal(w.Val, v)
+				if !ok {
+					inV, fid, _ := badger.VerifItemPtr(it)
+					sig = g.classify(k, ts, true, it.Version(), inV, fid)
+				}
+			case errors.Is(err, badger.ErrKeyNotFound):
+				ok = w == nil
+			default:
+				ok = false
+			}
+			if !ok {
+				g.stop = true
+				tx.Discard()
+				g.c.Oracle(false, sig, "after `"+where+"` a read differs from the committed history (GC write-back copy involved: see signature)", J{"history": g.desc, "key": k, "ts": ts})
+				return
+			}
+		}
+		tx.Discard()
+	}
+	g.c.Oracle(true, "", "", nil)
 }
 
 // ---- the rewrite, phase by phase ----
@@ -538,6 +637,7 @@ func (g *gcHist) gcRun(fid uint32, ratio float64, winA, winB, winC func()) error
 			ks := make([]string, len(kept))
 			for i, e := range kept {
 				ks[i] = fmt.Sprintf("(%s, %d)", B(e.Key), e.Version)
+				g.wroteBack[fmt.Sprintf("%x@%d", e.Key, e.Version)] = g.clamp
 			}
 			g.ops[scanAt] = "(GcScan " + ListOf(ks) + ")"
 			g.desc[scanAt] = fmt.Sprintf("gc-scan kept=%d", len(kept))
@@ -629,7 +729,20 @@ func (g *gcHist) commitT(t int) {
 		g.mts++
 		at = g.mts
 	}
+	// the records of one transaction go to one value-log file, in the (random) order in which
+	// commitAndSend ranges over the pendingWrites map: observe it
+	active := g.db.VerifGcState().MaxFid
+	before, _ := g.db.VerifGcRecords(active)
 	g.commit(t, at)
+	after, _ := g.db.VerifGcRecords(active)
+	var ord []string
+	for i := len(before); i < len(after); i++ {
+		ord = append(ord, fmt.Sprintf("(%s, %d)", B(after[i].Key), after[i].Version))
+	}
+	last := g.ops[len(g.ops)-1]
+	if strings.HasPrefix(last, "(Commit ") {
+		g.ops[len(g.ops)-1] = "(CommitV " + strings.TrimSuffix(strings.TrimPrefix(last, "(Commit "), ")") + " " + ListOf(ord) + ")"
+	}
 }
 
 func (g *gcHist) discardT(t int) {
@@ -676,7 +789,9 @@ func (g *gcHist) randWrite() {
 func (g *gcHist) randRead() {
 	t := g.beginAt(false)
 	if g.c.Rng.Intn(3) == 0 {
-		g.iterate(t, itOpts{Prefetch: g.c.Rng.Intn(2) == 0, Reverse: g.c.Rng.Intn(4) == 0, All: g.c.Rng.Intn(4) == 0}, nil)
+		// (AllVersions is exercised by the held iterators, whose oracle ignores the values of
+		// dead versions)
+		g.iterate(t, itOpts{Prefetch: g.c.Rng.Intn(2) == 0, Reverse: g.c.Rng.Intn(4) == 0}, nil)
 	} else {
 		g.get(t, g.keys[g.c.Rng.Intn(len(g.keys))])
 	}
@@ -700,6 +815,9 @@ func (g *gcHist) randCompact() error {
 	ran, err := g.compact(lvl, false, nil)
 	if ran && g.inGC {
 		g.compactInGC = true
+	}
+	if ran && err == nil {
+		g.refCheck("compaction")
 	}
 	return err
 }
